@@ -79,8 +79,12 @@ def run_proc(drv, d, prt, script, trace, kill, freq, base=0):
     return V.run_driver(drv, [d + '/', str(prt), sp, trace, str(kill), str(freq), str(base)], timeout=120)
 
 
+FULL = set()        # histories whose kill points are all executed in the quick tier too
+
+
 def histories(tier, rnd):
     H = []
+    FULL.clear()
     H.append(([('create', 'r1'), ('create', 'r2'), ('register', 'r1', 0, 'a1'), ('register', 'r2', 1, 'b2'), ('change', 'r1', 1), ('change', 'r1', 1), ('change', 'r1', 1), ('cancel', 'r2', 1, 'b2')], 1))
     H.append(([('create', 'r1'), ('register', 'r1', 0, 'a1')] + [('change', 'r1', 1)] * 5 + [('create', 'r2'), ('delete', 'r1'), ('register', 'r2', 0, 'c3')], 2))
     H.append(([('create', 'r1'), ('create', 'r2'), ('create', 'r3'), ('delete', 'r2'), ('create', 'r2'), ('register', 'r3', 2, 'd4')] + [('change', 'r3', 1)] * 12, 10))
@@ -89,6 +93,13 @@ def histories(tier, rnd):
     H.append(([('create', 'r1'), ('register', 'r1', 0, 'a1'), ('change', 'r1', 1), ('restart',), ('cancel', 'r1', 0, 'a1'), ('change', 'r1', 1)], 1))
     H.append(([('create', 'r1'), ('create', 'r2'), ('register', 'r1', 0, 'a1'), ('register', 'r2', 1, 'b2'), ('restart',), ('change', 'r1', 1), ('delete', 'r2'),
                ('register', 'r1', 1, 'b1'), ('restart',), ('cancel', 'r1', 0, 'a1'), ('change', 'r1', 1), ('create', 'r3')], 2))
+    # a resource whose counter line precedes another's is deleted: a kill inside the deletion leaves an orphan line in front of the live one
+    FULL.add(len(H))
+    H.append(([('create', 'r1'), ('create', 'r2'), ('register', 'r1', 0, 'a1'), ('register', 'r2', 1, 'b2'), ('change', 'r1', 1), ('change', 'r1', 1),
+               ('change', 'r2', 1), ('change', 'r2', 1), ('change', 'r2', 1), ('delete', 'r1')], 1))
+    FULL.add(len(H))
+    H.append(([('create', 'r2'), ('create', 'r1'), ('register', 'r2', 0, 'a1'), ('register', 'r1', 1, 'b2')] + [('change', 'r2', 1)] * 4 + [('change', 'r1', 1)] * 7 +
+              [('delete', 'r2'), ('change', 'r1', 1)], 3))
     names = ['r1', 'r2']
     for _ in range(3 if tier == 'quick' else 40):
         ops, have, regs = [], set(), {}
@@ -167,7 +178,7 @@ def run(pid, tier):
         snaps, calls = refs[hi]
         all_names = sorted(set(op[1] for op in ops if op[0] != 'restart'))
         kills = [(g, n) for g, c in enumerate(calls) for n in range(1, c + 1)]
-        if tier == 'quick' and len(kills) > 45:
+        if tier == 'quick' and len(kills) > 45 and hi not in FULL:
             kills = sorted(rnd.sample(kills, 45))
         for (g, n) in kills:
             for sign in (1, -1):
